@@ -63,7 +63,9 @@ class WireMsg(object):
 
 class LazyDul(object):
     """Provider stub.  policy: 'eager' | ('lag', k) | 'blocked' (drain only when the application blocks in
-    receive() or the call returns)."""
+    receive() or the call returns) | 'starved' (the provider loop serves the network before the outgoing queue:
+    as long as incoming messages are available they are delivered first; outgoing messages are encoded only when
+    nothing more is coming in, or at the end)."""
 
     def __init__(self, policy='eager', replies=()):
         self.policy = policy
@@ -118,7 +120,8 @@ class LazyDul(object):
                 n -= 1
 
     def receive(self, timeout=None):
-        self.drain()                 # the application blocks: the provider thread runs
+        if self.policy != 'starved' or not self.replies:
+            self.drain()             # the application blocks: the provider thread runs
         if not self.replies:
             raise exceptions.DCMTimeoutError()
         r = self.replies.pop(0)
